@@ -1134,6 +1134,16 @@ def getsource_class(c: type) -> str:
             raise e
         lines = inspect.linecache.getlines(_new_getfile(c))  # type: ignore
         cell_code = "".join(lines)
+        # The block of the class, from its first decorator to its last line. (extract_symbols cuts the cell
+        # at the 'def' / 'class' lines: the decorators of the next definition would be part of the class.)
+        for cell_node in ast.parse(cell_code).body:
+            if isinstance(cell_node, ast.ClassDef) and cell_node.name == c.__name__:
+                first = min(
+                    [cell_node.lineno] + [d.lineno for d in cell_node.decorator_list]
+                )
+                last = getattr(cell_node, "end_lineno", None)
+                if last is not None:
+                    return "".join(lines[first - 1 : last])
         class_code: str = extract_symbols(cell_code, c.__name__)[0][0]  # type: ignore
         return class_code
 
